@@ -31,14 +31,21 @@ RULE = ("TLC enumerates every level instance of the reference world (every prefi
         "none / two-step / single-call by translation); each case = 1 call event + 1 event per component kind + 1 per "
         "derived quantity (+ 1 per kind after the undo); plus seeded "
         "random float angles (uniform, dense near 0, near +-0.05, near multiples of pi/2 and +-2pi) x random targets x "
-        "random integer translations.  distinct_nontrivial = distinct (target, t, rotation, mix, undo) with a "
-        "non-identity motion.")
+        "random integer translations.  Variants: cold (moved right after construction) for every case, warm (.vertices / "
+        ".shapely_object / contains_point of every reachable shape evaluated before the motion) for the sampled tokens at "
+        "t != 0, the role mixes and every 5th other case (thorough: all).  distinct_nontrivial = distinct (target, t, "
+        "rotation, mix, undo, variant) with a non-identity motion.")
 ASSUMPTIONS = ["stored points are integers |x| <= 26, orientations atan2(s, c) of axis / (3,4,5) tokens; translations integer",
                "tolerance 1e-9 * den * (1 + |x + tx| + |y + ty|) on den * x' (tokens), 1e-9 * scale against math.cos/sin "
                "(float angles), 1e-9 on directions, 1e-9 relative on derived quantities",
                "polygon vertices are compared index-wise (the stored ring starts at the first given vertex, clockwise)",
                "point-mass velocity components are scalars, not stored points: not asserted to rotate",
                "functional levels (State / Shape.translate_rotate return a new object): the returned object is observed",
+               "exported rectangle corners (public .vertices) are point components rect_corners/<where>: originals read from a "
+               "never-moved twin (integers within 1e-9, sizes chosen accordingly), checked against Transform!RectCorners; corner "
+               "order as exported; containment probe = the shape contains its own stored centre / centroid (convex shapes)",
+               "warm variant touches shapes only (obstacle shapes, stored occupancy shapes, regions, goal shapes); it never "
+               "queries occupancy_at_time / TrajectoryPrediction.occupancy_set on the object under test (C11)",
                "float-angle cases: expected image from math.cos / math.sin in the harness (projection), no undo"]
 
 SC, NET, PPS = ("scenario", "-"), ("lanelet_network", "-"), ("planning_problem_set", "-")
@@ -99,7 +106,20 @@ def cases(ctx):
         cs.append({"tgt": [list(SC)], "t": [rng.randint(-60, 60), rng.randint(-60, 60)], "rot": [0, 0, 0, 0],
                    "angle": rng.uniform(0.2, 6.0), "mix": mix, "undo": "none", "steps": [], "mode": "flt",
                    "level": "scenario"})
-    return cs
+    # two variants: "cold" (objects moved right after construction) and "warm" (the exported geometry of every shape -
+    # .vertices / .shapely_object / contains_point - was evaluated before the motion, as after a goal check or a draw).
+    # quick tier: warm for every case with the sampled tokens at a non-zero translation, the role mixes, and every 5th
+    # of the remaining ones; thorough: both variants everywhere.
+    sample = {(1, 0, 1, 0), (0, 1, 1, 0), (-1, 0, 1, -1), (3, 4, 5, 0), (-20, -21, 29, 0), (5, -12, 13, 1), (399, 40, 401, 0),
+              (1520, -78, 1522, 0), (1599, 80, 1601, 0), (1599, -80, 1601, 0), (9999, 200, 10001, 0), (1599, 80, 1601, -1),
+              (1, 0, 1, 1), (1680, -82, 1682, 1)}
+    out = []
+    for i, c in enumerate(cs):
+        out.append(dict(c, variant="cold"))
+        if (ctx.thorough or len(c["mix"]) < 4 or i % 5 == 0
+                or (c["mode"] == "tok" and tuple(c["rot"]) in sample and c["t"] != [0, 0])):
+            out.append(dict(c, variant="warm"))
+    return out
 
 
 def _key(path):
@@ -115,7 +135,7 @@ def nontrivial(case):
         if case["angle"] == 0.0 and case["t"] == [0, 0]:
             return None
         ang = case["angle"]
-    return (_key(case["tgt"]), tuple(case["t"]), ang, tuple(case["mix"]), case["undo"])
+    return (_key(case["tgt"]), tuple(case["t"]), ang, tuple(case["mix"]), case["undo"], case.get("variant", "cold"))
 
 
 # ---- gamma: the reference world of Transform.tla ------------------------------------------------------------------
